@@ -10,6 +10,7 @@ Fixpoint rename_expr (pi : nat -> nat) (e : @expr Qc) : @expr Qc :=
   | ENeg e => ENeg (rename_expr pi e) | EAdd a b => EAdd (rename_expr pi a) (rename_expr pi b)
   | ESub a b => ESub (rename_expr pi a) (rename_expr pi b) | EMul a b => EMul (rename_expr pi a) (rename_expr pi b)
   | EDiv a b => EDiv (rename_expr pi a) (rename_expr pi b) | EPow a n => EPow (rename_expr pi a) n
+  | EApp f df e => EApp f df (rename_expr pi e)
   end.
 Definition rename_block (pi : nat -> nat) (b : sblock) : sblock :=
   {| sb_ins := map pi (sb_ins b); sb_outs := map (fun oe => (pi (fst oe), rename_expr pi (snd oe))) (sb_outs b) |}.
